@@ -159,7 +159,30 @@ impl HttpClient {
         &self,
         uri: &uri::Https,
     ) -> Result<HttpResponse, reqwest::Error> {
+        #[cfg(routinator_verif)]
+        if let Some(reply) = crate::verif::http_override(
+            uri.as_str(), None, None
+        ) {
+            return Self::verif_response(reply)
+        }
         self._response(self.client().get(uri.as_str()))
+    }
+
+    /// Hook H1: turns an in-process reply into a response.
+    #[cfg(routinator_verif)]
+    fn verif_response(
+        reply: crate::verif::HttpReply
+    ) -> Result<HttpResponse, reqwest::Error> {
+        let mut builder = hyper::http::Response::builder().status(
+            reply.status
+        );
+        for (name, value) in reply.headers {
+            builder = builder.header(name, value);
+        }
+        let response = Response::from(
+            builder.body(reply.body).expect("bad forced HTTP reply")
+        );
+        response.error_for_status().map(HttpResponse::create)
     }
 
     pub fn conditional_response(
@@ -168,6 +191,13 @@ impl HttpClient {
         etag: Option<&Bytes>,
         last_modified: Option<DateTime<Utc>>,
     ) -> Result<HttpResponse, reqwest::Error> {
+        #[cfg(routinator_verif)]
+        if let Some(reply) = crate::verif::http_override(
+            uri.as_str(), etag.map(|etag| etag.as_ref()),
+            last_modified.map(|time| time.timestamp())
+        ) {
+            return Self::verif_response(reply)
+        }
         let mut request = self.client().get(uri.as_str());
         if let Some(etag) = etag {
             request = request.header(
